@@ -42,7 +42,7 @@ CHECKS = {
          "Commands are atomic and deterministic; a failing command writes nothing. Crash instants are covered by C11.",
          "property-based testing: snapshot-subset invariant plus call-log step rule over generated histories", "2 C08"),
  "C09": ("exploration",
-         "Workspaces with bystander files, two rules files and out-of-scope rules; every mutating call ruler makes outside commands must name an in-scope target (harness's own ancestor closure) or a path in the ruler directory, and all other files keep content, mtime and permissions, for build and clean with and without goals.",
+         "Workspaces with bystander files, two rules files and out-of-scope rules; every mutating call ruler makes outside commands must name an in-scope target (harness's own ancestor closure) or a path in the ruler directory, and all other files keep content, mtime and permissions, for build and clean with and without goals. A real-file-system slice through the built binary adds a target that is a symbolic link to a source file: every file that is not an in-scope target keeps content, modification time and mode across every invocation.",
          "Command writes are excluded by the in-command flag of the instrumented file system.",
          "property-based testing: call-log audit and before/after snapshot comparison over generated histories", "2 C09"),
  "C20": ("exploration",
@@ -58,7 +58,7 @@ CHECKS = {
          "A failing command writes nothing; error order is not compared; CommandExecutedButErrored carries no name, so it is matched by count.",
          "property-based testing: fault placement x schedules against the reference evaluation, then repair-and-rebuild", "2 C04"),
  "C05": ("exploration",
-         "Every run of every scheduled scenario (build and clean, with failures, cancellations and goal-restricted graphs) must come back: the scheduler shim knows every thread's blocked-on relation, so 'all unfinished threads blocked' is reported as a deadlock structurally; panics in any thread and SenderError/ReceiverError/Weird results are violations. Arbitrary generated rule sets (cycles, duplicate targets, missing goals) are also built and cleaned: whatever dependency analysis answers, the call must return.",
+         "Every run of every scheduled scenario (build and clean, with failures, cancellations and goal-restricted graphs) must come back: the scheduler shim knows every thread's blocked-on relation, so 'all unfinished threads blocked' is reported as a deadlock structurally; panics in any thread and SenderError/ReceiverError/Weird results are violations. Arbitrary generated rule sets (cycles, duplicate targets, missing goals) are also built and cleaned: whatever dependency analysis answers, the call must return. A real-file-system slice builds projects in which a /bin/sh command prints up to 700 000 bytes to stderr and stdout through the built binary; an invocation whose whole process tree sits idle (no CPU time, nothing runnable, 8 samples) is a hang.",
          "Deadlock is decided from the complete blocked-on relation of the shim, never by a timeout. Liveness beyond the explored schedules is not established.",
          "property-based testing over schedules: deterministic scheduler with structural deadlock detection, single-preemption enumeration + random/PCT", "2 C05"),
  "C06": ("exploration",
@@ -70,7 +70,7 @@ CHECKS = {
          "Crash model: completed operations are durable and ordered, rename is atomic, no write-back reordering. Serial schedule (plus sampled random schedules in the thorough tier). Scenarios contain no failing rule.",
          "fault injection enumerated over every mutation prefix of generated scenarios (property-based scenario generation + exhaustive crash points), recovery oracle = C01", "2 C11"),
  "C18": ("exploration",
-         "Each generated history is executed twice in lockstep from the same start, once as is and once with the saved file-state table deleted before every build, under a clock where every write is distinct and under a coarse clock where all files written in one invocation share an mtime; after every build verdicts and all workspace file bytes must agree (and equal the from-scratch result).",
+         "Each generated history is executed twice in lockstep from the same start, once as is and once with the saved file-state table deleted before every build, under a clock where every write is distinct and under a coarse clock where all files written in one invocation share an mtime; after every build verdicts and all workspace file bytes must agree (and equal the from-scratch result). A real-file-system slice does the same with two scratch directories for a rule whose declared source is a directory whose files are rewritten in place.",
          "Self-differential: the table-less run is ruler itself with less information. Time always advances between user actions and invocations.",
          "property-based testing: differential (with vs without the mtime table) over generated histories under two clock models", "2 C18"),
  "C10": ("exploration",
